@@ -47,6 +47,7 @@ type State struct {
 	loopNames  map[string]bool // callee names that may be called inside a loop entered on this path (immutable map, replaced on change)
 	retInLoops []int           // ordinals of the loops whose body contains the return that ended this path
 	loopsDone  []int           // ordinals of the (top-level function's) loops this path left through the header's exit edge
+	sites      map[string]bool // safety sites (label@position) evaluated on this path (immutable map, replaced on change)
 	panics     string          // non-empty: path ended in panic (reason)
 	trace      []string
 }
@@ -56,7 +57,7 @@ func newState() *State {
 }
 
 func (s *State) clone() *State {
-	n := &State{cells: make(map[int]Val, len(s.cells)), worlds: make(map[int]*World, len(s.worlds)), dead: s.dead, panics: s.panics, loopMark: s.loopMark, loopNames: s.loopNames, retInLoops: s.retInLoops, loopsDone: s.loopsDone}
+	n := &State{cells: make(map[int]Val, len(s.cells)), worlds: make(map[int]*World, len(s.worlds)), dead: s.dead, panics: s.panics, loopMark: s.loopMark, loopNames: s.loopNames, retInLoops: s.retInLoops, loopsDone: s.loopsDone, sites: s.sites}
 	for k, v := range s.cells {
 		n.cells[k] = v
 	}
@@ -133,6 +134,14 @@ type Obligation struct {
 	precomputed bool
 	defs        []string
 	env         *Env
+	Site        string // nopanic: the safety site (label@position) the obligation guards
+	Covered     string // nopanic under "nopanic dryrun": why a sat obligation is not a violation (dry-run cover)
+	// dry-run cover bookkeeping (decided after discharge): auxiliary "this path can return nil" queries and the sites each passed
+	dryStateFree bool
+	dryCulprit   string
+	dryPaths     []*Obligation
+	dryFn        string
+	nilPathSites map[string]bool
 }
 
 func (o *Obligation) Name() string { return fmt.Sprintf("%s/%s:%s", o.Fn, o.Kind, o.Label) }
@@ -367,7 +376,46 @@ func (e *Env) oblige(st *State, kind, label, goal, detail string, pos token.Pos)
 	goal = e.skolemize(goal)
 	o := &Obligation{Fn: e.curName, Kind: kind, Label: label, PC: append([]string(nil), st.pc...), Goal: goal, Detail: detail, Pos: e.pos(pos), decls: e.D, Bounded: e.bounded, env: e}
 	o.defs = append([]string(nil), st.defs...)
+	if kind == "nopanic" {
+		// lengths of slices, strings and byte slices are Go ints far below 2^40 (memory): stated for every length
+		// term the obligation mentions, so that index / bounds arithmetic does not "wrap" at 2^64
+		seen := map[string]bool{}
+		for _, txt := range append([]string{goal}, st.pc...) {
+			for _, lt := range lengthTerms(txt) {
+				if !seen[lt] && !strings.Contains(lt, "!q") {
+					seen[lt] = true
+					o.extra = append(o.extra, tApp("bvult", lt, bvLit(1<<40, 64)))
+				}
+			}
+		}
+	}
 	e.obls = append(e.obls, o)
+}
+
+// lengthTerms returns the (slen64 t) and (len_Slice_X t) subterms of an SMT term.
+func lengthTerms(s string) []string {
+	var out []string
+	for i := 0; i < len(s); i++ {
+		if s[i] != '(' {
+			continue
+		}
+		if !(strings.HasPrefix(s[i:], "(slen64 ") || strings.HasPrefix(s[i:], "(len_Slice_")) {
+			continue
+		}
+		d := 0
+		for j := i; j < len(s); j++ {
+			if s[j] == '(' {
+				d++
+			} else if s[j] == ')' {
+				d--
+				if d == 0 {
+					out = append(out, s[i:j+1])
+					break
+				}
+			}
+		}
+	}
+	return out
 }
 
 func typeKey(t types.Type) string { return t.String() }
